@@ -33,9 +33,11 @@ func (o *Operator) match(expression string, start, maximum int) bool {
 		return false
 	}
 	matches := o.Symbol == expression[start:start+len(o.Symbol)]
-	// Hack to allow negative exponents on floating point numbers (i.e. 1.2e-2). The digit before the 'e' has to be the
-	// end of a numeric literal; in a name such as $a1e the 'e' is not an exponent marker and the '-' is an operator.
-	if matches && len(o.Symbol) == 1 && o.Symbol == "-" && start > 1 && expression[start-1:start] == "e" {
+	// Hack to allow signed exponents on floating point numbers (i.e. 1.2e-2, 1e+2, 2.5E-1). The digit before the 'e' or
+	// 'E' has to be the end of a numeric literal; in a name such as $a1e the 'e' is not an exponent marker and the sign
+	// is an operator.
+	if matches && len(o.Symbol) == 1 && (o.Symbol == "-" || o.Symbol == "+") && start > 1 &&
+		(expression[start-1:start] == "e" || expression[start-1:start] == "E") {
 		ch, _ := utf8.DecodeRuneInString(expression[start-2 : start-1])
 		if unicode.IsDigit(ch) && endsNumericLiteral(expression, start-2) {
 			return false
